@@ -129,6 +129,21 @@ where
     r
 }
 
+/// Like [`with_replica`] for storages without `Default`: takes the storage by value and
+/// returns it.
+pub async fn with_owned<S, R, F>(st: S, ctl: Arc<Ctl>, f: F) -> (S, R)
+where
+    S: Storage,
+    F: AsyncFnOnce(&mut Replica<Proxy<S>>) -> R,
+{
+    let (proxy, back) = Proxy::new(st, ctl);
+    let mut rep = Replica::new(proxy);
+    let r = f(&mut rep).await;
+    drop(rep);
+    let st = back.lock().unwrap().take().expect("storage handed back");
+    (st, r)
+}
+
 /// `InMemoryStorage` has no `Default`; this newtype gives it one and forwards `Storage`.
 #[derive(Clone, Debug, PartialEq)]
 pub struct Mem(pub InMemoryStorage);
